@@ -435,6 +435,7 @@ def enter_exit_rules(R, P):
     pause_typestate(R, P)
     from ..roles import Roles as _Roles
     common.unwind_pauses(R, _Roles(R), P + ".UNWIND-PAUSE")
+    common.typed_stack_elements(R, _Roles(R), P + ".UNWIND-TYPED")
     from .c12 import running_on_every_step
     running_on_every_step(R, _Roles(R), P + ".UNWIND-PAUSE")
     # __exit__ unregisters before it pauses: if pause() raises, the context is nevertheless no longer known to the task
